@@ -28,7 +28,9 @@ var propertyClauses = map[string]clauseInfo{
 	},
 	"C04": {
 		decided: []string{
-			"for each function listed under functions_under_contract: no index/slice out of range, no nil dereference, no reachable panic, no division by zero, no int overflow, and every loop has a discharged variant (range loops by construction)",
+			"for each function listed under functions_under_contract: no index/slice out of range, no nil dereference, no reachable panic, no division by zero, no int overflow, and every loop has a discharged variant (range loops by construction) — except the classes a contract marks nosafety/unclaimed with its stated assumption (listed under not_decided)",
+			"the explicit panics guarding cursor arithmetic: Advance's \"index out of bounds\" / \"negative length\" and ConsumeIndent's \"consumed past end of indent\" are unreachable under their contracts (Advance: 0 <= n <= bytes left; ConsumeIndent: n at most the columns Indent() reports, proved with the tab-stop arithmetic), and those preconditions are discharged at every call in the fenced-code, ATX-heading and list-item block starts and in CollectInline",
+			"Parse: NextBlock can only return nil or the latched io.EOF, so panic(err) is unreachable; readline/padNulls/makeRoot index arithmetic",
 		},
 		notDecided: []string{
 			"functions of the two packages that are not under contract (the block-structure and inline tree-building code, the renderer's pre/post functions, the formatter)",
@@ -120,10 +122,11 @@ var propertyClauses = map[string]clauseInfo{
 			"autolink nodes select <...> and have exactly one text child spanning the inside; soft line break nodes select \\n, \\r or \\r\\n; hard line break nodes select a backslash, or two or more spaces followed only by spaces and line-ending characters (parseHardLineBreakSpace, parseBackslash)",
 			"these shapes are obligations at every addToRoot call of the tokeniser (parse, parseBackslash), for every path through the scanning loop",
 			"recognisers whose results become block attributes: list marker = bullet or 1-9 digits + . or ) (parseListMarker), ATX level = length of the # run (parseATXHeading), fence = 3+ equal fence characters (parseCodeFence), setext underline (parseSetextHeadingUnderline): exact contracts (shared with C15)",
+			"block spans start on their syntax: at the call that opens a fenced code block the line cursor stands on a run of at least three fence characters of the recorded character and length; at the call that opens an ATX heading it stands on level '#' characters; the list-marker block is opened on the first byte of the marker (a bullet, or 1-9 digits followed by . or )) and closed after exactly the marker's bytes — proved over the contracts of the real cursor methods (Indent, BytesAfterIndent, ConsumeIndent, Advance)",
 		},
 		notDecided: []string{
 			"emphasis / strong (processEmphasis, wrap), code spans (parseCodeSpan over the inline reader), links and images (parseEndBracket), raw HTML tags (parseHTMLTag): the functions that build these nodes are abstracted in parse and not under contract",
-			"that a block node's span starts where the recogniser matched (ListMarker, ATX, fence, block quote '>'): needs the line cursor's contracts (Indent / ConsumeIndent / Advance), not built",
+			"block quote starts with '>' and setext heading ends in its underline: those block starts are not under contract (the fence, ATX and list-marker starts are: see decided)",
 			"span validity inside parse (cursor within the unparsed run) is assumed (A-C02-1)",
 		},
 	},
